@@ -824,7 +824,7 @@ def run(ctx, n_override=None):
     res.extra['refuted_theorems'] = [dict(
         theorem='Properties_C12.every_invalid_item_reported_multi_file_refuted',
         witness='-f a.dat -f b.dat, one unbalanced transaction in each: no message names b.dat',
-        finding='F20-multi-f')]
+        finding='F23')]
     try:
         gen = open(os.path.join(lib.COQ, 'Gen', 'StatusOfCount.v')).read()
         res.extra['generated_tables'] = {'Gen/StatusOfCount.v': [l for l in gen.split('\n') if l.startswith('Definition') or 'shape' in l]}
